@@ -41,6 +41,7 @@ HOOK_COMMITS = [
     "30c0265 verif hook H3: push_queue/push_event skip the QUEUE thread-local under --cfg sozu_verif",
     "8194c1c verif hook H4 (mux): public wrappers for private H2/pkawa/converter/serializer kernels under --cfg sozu_verif",
     "80728f6 verif hook H4 (router): public wrapper for select_tree_rule under --cfg sozu_verif",
+    "7aed797 verif hook H4 (state): public wrapper for diff_map under --cfg sozu_verif",
 ]
 
 REGISTRY["C11"] = {
@@ -252,5 +253,24 @@ REGISTRY["C03"] = {
         K("c03::c03_host_authority_same_origin", "host and authority of 0..5 symbolic bytes, no '['; unwind 8",
           "accepted => same host part case-insensitively and never two different explicit ports; strip_port returns a prefix and removes only ':digits'", PK, min_covers=2),
         K("c03::c03_trim_ows_exact", "0..5 symbolic bytes; unwind 8", "result is the inner sub-slice without SP/HTAB at the ends; only whitespace is trimmed", PK),
+    ],
+}
+
+ST = ["command/src/state.rs"]
+REGISTRY["C06"] = {
+    "technique": "bounded model checking (Kani/CBMC, SAT) of the diff merge-join and of the Backend ordering it is fed with",
+    "level_text": "CBMC decides, for all strictly increasing key sequences of length <= 3 on each side (keys and values symbolic u8), that the real state::diff_map iterator emits exactly the keys that differ, each once, in order, with the right Added/Removed/Changed kind, and nothing for equal inputs; and that response::Backend's Ord agrees with == (Equal iff all fields equal), is antisymmetric and transitive over small symbolic field domains. Bounded; the end-to-end 'apply diff(A,B) to A' on ConfigState is not executed by the solver (prost structs + BTreeMaps measured out of CBMC's reach) and is covered only by the native replay tests of the repaired finding.",
+    "level_note": "Listeners/clusters/frontends/certificates sections of diff and worker convergence are outside the claim. diff_map is instantiated at K=u8,V=u8 (generic code, one instantiation).",
+    "rule": "C06: merge-join exactness + ordering consistency.",
+    "trusted_base": [],
+    "assumptions": ["diff_map inputs have strictly increasing keys (BTreeMap iteration at every call site, by reading)"],
+    "residual": "ConfigState::diff as a whole (which fields flow into each key; listener/cluster/frontend/certificate sections), acceptance of each emitted command by dispatch, worker resynchronisation.",
+    "obligations": [
+        K("c06::c06_diff_map_exact", "two sorted sequences of 0..3 (key,value) pairs, all u8 values; unwind 8",
+          "every emitted (key, kind) is correct; keys strictly increasing (no duplicate); a key is emitted iff it differs between the sides", ST, min_covers=3),
+        K("c06::c06_diff_map_identity_is_empty", "one sorted sequence of 0..3 pairs against itself; unwind 8", "diff(A, A) is empty", ST),
+        K("c06::c06_backend_order_consistent", "two backends: cluster/backend id in {a,b}, all IPv4 addresses and ports, sticky in {None,a,b}, backup in {None,false,true}, weight symbolic; unwind 6",
+          "cmp == Equal <=> ==; cmp(a,b) == reverse(cmp(b,a)); reflexive", ["command/src/response.rs"], min_covers=2),
+        K("c06::c06_backend_order_transitive", "three backends differing in address/port/backup; unwind 6", "a<=b and b<=c => a<=c", ["command/src/response.rs"]),
     ],
 }
